@@ -2325,10 +2325,18 @@ impl<T: PPGEvaluatorStrategy> PPGEvaluator<T> {
                 Required::Unknown => return Ok(Required::Unknown),
                 Required::Yes => return Ok(Required::Yes),
                 Required::No => match jobs[downstream_idx].state {
-                    JobState::Output(JobStateOutput::NotReady(ValidationStatus::Validated))
-                    | JobState::Ephemeral(JobStateEphemeral::NotReady(
+                    JobState::Output(JobStateOutput::NotReady(ValidationStatus::Validated)) => {}
+                    JobState::Ephemeral(JobStateEphemeral::NotReady(
                         ValidationStatus::Validated,
-                    )) => {}
+                    )) => {
+                        // a validated ephemeral consumer does not need us by itself, but it
+                        // will as soon as one of *its* consumers turns out to be required.
+                        match Self::downstream_requirement_status(dag, jobs, downstream_idx)? {
+                            Required::Yes => return Ok(Required::Yes),
+                            Required::Unknown => had_unknown = true,
+                            Required::No => {}
+                        }
+                    }
 
                     JobState::Output(JobStateOutput::NotReady(ValidationStatus::Invalidated)) => {
                         error!("\tRequired::Yes");
